@@ -332,4 +332,48 @@ theorem newParams_twice (cls : Cls) (kw : PDict) (hn : (kw.map (·.1)).Nodup) (c
   | none => exact update_self_eqv kw hn
   | some p => exact update_update_eqv p kw
 
+/-! ### memo fields -/
+
+/-- every filled memo holds the plain function's specification -/
+def MemoOk (base : Sig) (ms : Memos) : Prop := ∀ s, some s ∈ ms → s = base
+
+theorem specWalk_of_ok (base : Sig) : ∀ ms, MemoOk base ms → specWalk base ms = base
+  | [], _ => rfl
+  | some s :: _, h => by simpa [specWalk] using h s (by simp)
+  | Option.none :: rest, h => by
+      simp only [specWalk]
+      exact specWalk_of_ok base rest fun s hs => h s (by simp [hs])
+
+theorem fillMemos_ok (base : Sig) : ∀ ms, MemoOk base ms → MemoOk base (fillMemos base ms)
+  | [], h => h
+  | some s :: rest, h => h
+  | Option.none :: rest, h => by
+      have hr : MemoOk base rest := fun s hs => h s (by simp [hs])
+      intro s hs
+      simp only [fillMemos, List.mem_cons, Option.some.injEq] at hs
+      rcases hs with hs | hs
+      · rw [hs, specWalk_of_ok base rest hr]
+      · exact fillMemos_ok base rest hr s hs
+
+theorem mkMemos_ok (base : Sig) (keep : List Bool) (ms : Memos) (h : MemoOk base ms) :
+    MemoOk base (mkMemos keep ms) := by
+  intro s hs
+  simp only [mkMemos, List.mem_cons, List.mem_map, List.mem_filter] at hs
+  rcases hs with hs | ⟨p, ⟨hp, _⟩, he⟩
+  · cases hs
+  · obtain ⟨m, b⟩ := p
+    simp only at he
+    subst he
+    exact h s (List.of_mem_zip hp).1
+
+/-- a request below the top: the outer objects are not touched -/
+theorem fill_below_ok (base : Sig) (outer inner : Memos) (h : MemoOk base (outer ++ inner)) :
+    MemoOk base (outer ++ fillMemos base inner) := by
+  intro s hs
+  rw [List.mem_append] at hs
+  rcases hs with hs | hs
+  · exact h s (by simp [hs])
+  · exact fillMemos_ok base inner (fun t ht => h t (by simp [ht])) s hs
+
+
 end Pyg
